@@ -45,24 +45,34 @@ decode_any!(c05__decode_proof_options, ProofOptions, 11, 13);
 decode_any!(c05__decode_context, Context, 24, 26);
 //@ harness=c05__decode_commitments tier=quick kind=prove cap=900 :: Commitments::read_from_bytes on every byte string <= 8 bytes
 decode_any!(c05__decode_commitments, Commitments, 8, 10);
-//@ harness=c05__decode_queries tier=quick kind=prove cap=900 :: Queries::read_from_bytes on every byte string <= 12 bytes (two length-prefixed byte vectors)
+//@ harness=c05__decode_queries6 tier=quick kind=prove cap=900 :: Queries::read_from_bytes on every byte string <= 6 bytes (two length-prefixed byte vectors)
+decode_any!(c05__decode_queries6, Queries, 6, 8);
+//@ harness=c05__decode_queries tier=thorough kind=prove cap=3600 :: Queries::read_from_bytes on every byte string <= 12 bytes
 decode_any!(c05__decode_queries, Queries, 12, 14);
 //@ harness=c05__decode_ood_frame tier=quick kind=prove cap=900 :: OodFrame::read_from_bytes on every byte string <= 8 bytes
 decode_any!(c05__decode_ood_frame, OodFrame, 8, 10);
-//@ harness=c05__decode_fri_proof tier=quick kind=prove cap=1800 :: FriProof::read_from_bytes on every byte string <= 14 bytes (layer count, u32 length prefixes, remainder)
+//@ harness=c05__decode_fri_proof7 tier=quick kind=prove cap=900 :: FriProof::read_from_bytes on every byte string <= 7 bytes (layer count, u32 length prefix, remainder length, partition exponent)
+decode_any!(c05__decode_fri_proof7, FriProof, 7, 9);
+//@ harness=c05__decode_fri_proof tier=thorough kind=prove cap=7200 edge :: FriProof::read_from_bytes on every byte string <= 14 bytes (edge: exceeded the quick cap)
 decode_any!(c05__decode_fri_proof, FriProof, 14, 16);
-//@ harness=c05__decode_batch_merkle_proof tier=quick kind=prove cap=1800 :: BatchMerkleProof::<XH>::read_from_bytes on every byte string <= 12 bytes (depth byte, vint node-vector count, nested vint lengths)
+//@ harness=c05__decode_batch_merkle_proof4 tier=quick kind=prove cap=900 :: BatchMerkleProof::<XH>::read_from_bytes on every byte string <= 4 bytes (depth byte, vint node-vector count up to 2^21, nested vint length)
+decode_any!(c05__decode_batch_merkle_proof4, BatchMerkleProof<H17>, 4, 6);
+//@ harness=c05__decode_batch_merkle_proof tier=thorough kind=prove cap=7200 edge :: BatchMerkleProof::<XH>::read_from_bytes on every byte string <= 12 bytes (edge: did not finish in 1800 s)
 decode_any!(c05__decode_batch_merkle_proof, BatchMerkleProof<H17>, 12, 14);
 //@ harness=c05__decode_enums tier=quick kind=prove cap=300 :: FieldExtension / BatchingMethod tags: every byte
 decode_any!(c05__decode_enums, (FieldExtension, BatchingMethod), 3, 5);
-//@ harness=c05__decode_f128 tier=quick kind=prove cap=600 :: f128 element and its quadratic extension from every byte string <= 33 bytes
-decode_any!(c05__decode_f128, (f128::BaseElement, QuadExtension<f128::BaseElement>), 33, 35);
-//@ harness=c05__decode_byte_digest tier=quick kind=prove cap=600 :: ByteDigest<32> / ByteDigest<24> from every byte string <= 33 bytes
-decode_any!(c05__decode_byte_digest, (<crypto::hashers::Blake3_256<f128::BaseElement> as crypto::Hasher>::Digest, <crypto::hashers::Blake3_192<f128::BaseElement> as crypto::Hasher>::Digest), 33, 35);
+//@ harness=c05__decode_f128 tier=quick kind=prove cap=600 :: f128 element from every byte string <= 17 bytes
+decode_any!(c05__decode_f128, f128::BaseElement, 17, 19);
+//@ harness=c05__decode_f128_quad tier=quick kind=prove cap=600 :: quadratic extension element over f128 from every byte string <= 33 bytes
+decode_any!(c05__decode_f128_quad, QuadExtension<f128::BaseElement>, 33, 35);
+//@ harness=c05__decode_byte_digest32 tier=quick kind=prove cap=600 :: ByteDigest<32> (Blake3_256 digest) from every byte string <= 33 bytes
+decode_any!(c05__decode_byte_digest32, <crypto::hashers::Blake3_256<f128::BaseElement> as crypto::Hasher>::Digest, 33, 35);
+//@ harness=c05__decode_byte_digest24 tier=quick kind=prove cap=600 :: ByteDigest<24> (Blake3_192 digest) from every byte string <= 25 bytes
+decode_any!(c05__decode_byte_digest24, <crypto::hashers::Blake3_192<f128::BaseElement> as crypto::Hasher>::Digest, 25, 27);
 
 //@ harness=c05__fri_num_partitions tier=quick kind=prove cap=600 :: FriProof decoded from [0 layers, empty remainder, p]: num_partitions() never panics for any exponent byte p, and any accepted value is a power of two
 #[kani::proof]
-#[kani::unwind(6)]
+#[kani::unwind(10)]
 #[kani::stub(alloc::fmt::format, no_fmt)]
 pub fn c05__fri_num_partitions() {
     let p: u8 = kani::any();
@@ -79,7 +89,7 @@ pub fn c05__fri_num_partitions() {
     kani::cover!(p >= 64, "VERIF-COVER oversized exponent byte");
 }
 
-//@ harness=c05__fri_parse_remainder tier=quick kind=prove cap=900 :: FriProof::parse_remainder::<f128> on a proof decoded from arbitrary bytes (remainder <= 17 bytes): Ok or Err, no panic
+//@ harness=c05__fri_parse_remainder tier=thorough kind=prove cap=7200 edge :: FriProof::parse_remainder::<f128> on a proof decoded from arbitrary bytes (remainder <= 17 bytes): Ok or Err, no panic
 #[kani::proof]
 #[kani::unwind(20)]
 #[kani::stub(alloc::fmt::format, no_fmt)]
@@ -131,7 +141,22 @@ pub fn c05__table_from_bytes_limits() {
     core::mem::forget(r);
 }
 
-//@ harness=c05__queries_parse_counts tier=quick kind=prove cap=900 :: Queries::parse with the proof's unique-query byte (0..=255) and any width 1..=255 on a Queries decoded from bytes with mismatching value length: Err, never a panic
+//@ harness=c05__queries_parse_zero tier=quick kind=prove cap=900 :: Queries::parse with a zero unique-query count taken from the proof (and any width 1..=255, any value byte): Err, never a panic
+#[kani::proof]
+#[kani::unwind(8)]
+#[kani::stub(alloc::fmt::format, no_fmt)]
+pub fn c05__queries_parse_zero() {
+    let width: usize = kani::any();
+    kani::assume(width >= 1 && width <= 255);
+    let v: u8 = kani::any();
+    let q = Queries::read_from_bytes(&[0b11, v, 0b1]).unwrap();
+    let r = q.parse::<F17, H17, MerkleTree<H17>>(8, 0, width);
+    assert!(r.is_err());
+    kani::cover!(width == 255, "VERIF-COVER");
+    core::mem::forget(r);
+}
+
+//@ harness=c05__queries_parse_counts tier=thorough kind=prove cap=7200 edge :: Queries::parse with the proof's unique-query byte (0..=255) and any width 1..=255 on a Queries decoded from bytes with mismatching value length: Err, never a panic
 #[kani::proof]
 #[kani::unwind(8)]
 #[kani::stub(alloc::fmt::format, no_fmt)]
@@ -178,7 +203,7 @@ pub fn c05__ood_frame_parse() {
     core::mem::forget(r);
 }
 
-//@ harness=c05__commitments_parse tier=quick kind=prove cap=900 :: Commitments::parse::<XH> on decoded bytes (<= 2 digests) with 1..=2 trace segments and 0..=40 FRI layers: Ok or Err, never a panic
+//@ harness=c05__commitments_parse tier=thorough kind=prove cap=7200 edge :: Commitments::parse::<XH> on decoded bytes (<= 2 digests) with 1..=2 trace segments and 0..=40 FRI layers: Ok or Err, never a panic
 #[kani::proof]
 #[kani::unwind(20)]
 #[kani::stub(alloc::fmt::format, no_fmt)]
@@ -200,7 +225,7 @@ pub fn c05__commitments_parse() {
     core::mem::forget(r);
 }
 
-//@ harness=c05__fri_layer_parse tier=quick kind=prove cap=1800 :: FriProofLayer parsing through FriProof::parse_layers::<F17, XH, MerkleTree<XH>> of a one-layer proof decoded from arbitrary bytes (values <= 3 bytes, opening proof <= 4 bytes): Ok or Err, never a panic
+//@ harness=c05__fri_layer_parse tier=thorough kind=prove cap=7200 edge :: FriProofLayer parsing through FriProof::parse_layers::<F17, XH, MerkleTree<XH>> of a one-layer proof decoded from arbitrary bytes (values <= 3 bytes, opening proof <= 4 bytes): Ok or Err, never a panic
 #[kani::proof]
 #[kani::unwind(10)]
 #[kani::stub(alloc::fmt::format, no_fmt)]
